@@ -167,7 +167,28 @@ fn sampled(rng: &mut Rng) -> Scenario {
         sc.knobs = gen_knobs(rng, m);
     }
     if rng.bool(0.2) && m != Meth::RK4 {
-        sc.max_step = Some(sc.span() * rng.logu(0.01, 2.0));
+        sc.max_step = Some(if rng.bool(0.2) { f64::INFINITY } else { sc.span() * rng.logu(0.01, 2.0) });
+    }
+    // the rest of the valid configuration space: min_step, first_step, tiny intervals
+    if m.implicit() && rng.bool(0.2) {
+        sc.min_step = Some(sc.span() * rng.logu(1e-8, 1e-2));
+    }
+    if m != Meth::RK4 && rng.bool(0.15) {
+        sc.first_step = Some(sc.dir() * sc.span() * rng.logu(1e-6, 2.0));
+    }
+    if rng.bool(0.05) {
+        let d = sc.dir();
+        sc.xend = sc.x0 + d * rng.logu(1e-12, 1e-6);
+        if m == Meth::RK4 {
+            sc.first_step = None;
+        }
+        if let Some(te) = &mut sc.t_eval {
+            let (x0, xend) = (sc.x0, sc.xend);
+            let n = te.len().max(1) as f64;
+            for (i, t) in te.iter_mut().enumerate() {
+                *t = x0 + (xend - x0) * (i as f64 + 0.5) / n;
+            }
+        }
     }
     // fault plan: a random subset of kinds is enabled per run
     let nf = match rng.int(0, 9) {
